@@ -31,8 +31,11 @@ impl Rng {
         self.s[3] = self.s[3].rotate_left(45);
         r
     }
-    /// uniform in 0..n (n > 0)
+    /// uniform in 0..n (0 for n = 0: sizes derived from the code under test may collapse)
     pub fn below(&mut self, n: u64) -> u64 {
+        if n == 0 {
+            return 0;
+        }
         self.next_u64() % n
     }
     pub fn range(&mut self, lo: i64, hi: i64) -> i64 {
